@@ -8,9 +8,11 @@ import socket
 from collections import namedtuple
 from ipaddress import ip_address, ip_network
 
+from cryptography.exceptions import UnsupportedAlgorithm
+
 import xfrm
 from crypto import RsaPrivateKey, RsaPublicKey
-from message import PayloadID, Proposal, TrafficSelector, Transform
+from message import InvalidSyntax, PayloadID, Proposal, TrafficSelector, Transform
 
 __author__ = 'Alejandro Perez-Mendez <alejandro.perez.mendez@gmail.com>'
 
@@ -90,33 +92,43 @@ class Configuration(object):
         """ Creates a new Configuration object from a textual dict
         """
         self.ike_configurations = {}
+        self._check_dict('The configuration', conf_dict)
         for connection_name, ikeconfdict in conf_dict.items():
             try:
                 ikeconf = self._load_ike_conf(connection_name, ikeconfdict, my_addresses)
                 self.ike_configurations[(ikeconf.my_addr, ikeconf.peer_addr)] = ikeconf
             except KeyError as ex:
                 raise ConfigurationError(f'Mandatory parameter {ex} missing for connection "{connection_name}"')
+            except ConfigurationError as ex:
+                raise ConfigurationError(f'Connection "{connection_name}": {ex}')
 
     def _load_ike_conf(self, name, conf_dict, my_addresses):
+        self._check_dict('The connection', conf_dict)
         encr = self._load_crypto_algs('encr', conf_dict.get('encr', ['aes256']), _encr_name_to_transform)
         integ = self._load_crypto_algs('integ', conf_dict.get('integ', ['sha256']), _integ_name_to_transform)
         prf = self._load_crypto_algs('prf', conf_dict.get('prf', ['sha256']), _prf_name_to_transform)
         dh = self._load_crypto_algs('dh', conf_dict.get('dh', ['14']), _dh_name_to_transform)
+        try:
+            proposal = Proposal(1, Proposal.Protocol.IKE, b'', encr + integ + prf + dh)
+        except InvalidSyntax as ex:
+            raise ConfigurationError(f'Invalid IKE proposal: {ex}')
         ikeconf = IkeConfiguration(
             name=name,
             my_addr=self._load_ip_address(conf_dict['my_addr']),
             peer_addr=self._load_ip_address(conf_dict['peer_addr']),
-            my_auth=self._load_auth_conf(conf_dict['my_auth']),
-            peer_auth=self._load_auth_conf(conf_dict['peer_auth']),
-            lifetime=int(conf_dict.get('lifetime', 15 * 60)),
-            dpd=int(conf_dict.get('dpd', 60)),
-            proposal=Proposal(1, Proposal.Protocol.IKE, b'', encr + integ + prf + dh),
+            my_auth=self._load_auth_conf('my_auth', conf_dict['my_auth']),
+            peer_auth=self._load_auth_conf('peer_auth', conf_dict['peer_auth']),
+            lifetime=self._load_int(conf_dict, 'lifetime', 15 * 60),
+            dpd=self._load_int(conf_dict, 'dpd', 60),
+            proposal=proposal,
             protect=[]
         )
         if ikeconf.my_addr not in my_addresses:
             raise ConfigurationError(
                 f'Connection {name} has invalid "my_addr" {ikeconf.my_addr}. You need to listen from it')
 
+        if type(conf_dict['protect']) is not list:
+            raise ConfigurationError('protect should be a list.')
         for ipsecconf_dict in conf_dict['protect']:
             ikeconf.protect.append(self._load_ipsec_conf(ikeconf, ipsecconf_dict))
         return ikeconf
@@ -125,11 +137,13 @@ class Configuration(object):
     def _load_ip_network(value):
         try:
             return ip_network(value)
-        except ValueError as ex:
+        except (ValueError, TypeError) as ex:
             raise ConfigurationError(f'Could not parse {ex} as an IP network')
 
     @staticmethod
     def _get_payload_id(value):
+        if not isinstance(value, str):
+            raise ConfigurationError('id should be a string.')
         try:
             addr = ip_address(value)
             type = PayloadID.Type.ID_IPV4_ADDR if addr.version == 4 else PayloadID.Type.ID_IPV6_ADDR
@@ -140,26 +154,63 @@ class Configuration(object):
             type = PayloadID.Type.ID_RFC822_ADDR
         else:
             type = PayloadID.Type.ID_FQDN
-        return PayloadID(type, value.encode())
+        try:
+            return PayloadID(type, value.encode())
+        except UnicodeError as ex:
+            raise ConfigurationError(f'Could not encode id: {ex}')
 
     @staticmethod
     def _load_ip_address(hostname):
         try:
             addr = ip_address(socket.getaddrinfo(hostname, None)[0][4][0])
             return ip_address(addr)
-        except (ValueError, socket.gaierror) as ex:
+        except (ValueError, TypeError, socket.gaierror) as ex:
             raise ConfigurationError(f'Could not resolve {hostname} into an IP address: {ex}')
 
-    def _load_auth_conf(self, conf_dict):
+    @staticmethod
+    def _check_dict(what, value):
+        if not isinstance(value, dict):
+            raise ConfigurationError(f'{what} should be a dictionary.')
+
+    @staticmethod
+    def _load_int(conf_dict, key, default):
+        try:
+            return int(conf_dict.get(key, default))
+        except (ValueError, TypeError, OverflowError):
+            raise ConfigurationError(f'{key} should be an integer.')
+
+    @staticmethod
+    def _load_bytes(conf_dict, key):
+        if key not in conf_dict:
+            return None
+        if not isinstance(conf_dict[key], str):
+            raise ConfigurationError(f'{key} should be a string.')
+        try:
+            return conf_dict[key].encode()
+        except UnicodeError as ex:
+            raise ConfigurationError(f'Could not encode {key}: {ex}')
+
+    def _load_key(self, conf_dict, key, key_class):
+        pem = self._load_bytes(conf_dict, key)
+        if pem is None:
+            return None
+        try:
+            return key_class(pem)
+        except (ValueError, TypeError, UnsupportedAlgorithm) as ex:
+            raise ConfigurationError(f'Could not load {key}: {ex}')
+
+    def _load_auth_conf(self, key, conf_dict):
+        self._check_dict(key, conf_dict)
         id_text = conf_dict.get('id', 'https://github.com/alejandro-perez/pyikev2')
         return AuthConfiguration(
-            psk=conf_dict['psk'].encode() if 'psk' in conf_dict else None,
+            psk=self._load_bytes(conf_dict, 'psk'),
             id=self._get_payload_id(id_text),
-            pubkey=RsaPublicKey(conf_dict.get('pubkey').encode()) if 'pubkey' in conf_dict else None,
-            privkey=RsaPrivateKey(conf_dict.get('privkey').encode()) if 'privkey' in conf_dict else None,
+            pubkey=self._load_key(conf_dict, 'pubkey', RsaPublicKey),
+            privkey=self._load_key(conf_dict, 'privkey', RsaPrivateKey),
         )
 
     def _load_ipsec_conf(self, ikeconf, conf_dict):
+        self._check_dict('Each entry of protect', conf_dict)
         no_esn = [Transform(Transform.Type.ESN, Transform.EsnId.NO_ESN)]
         ipsec_proto = self._load_from_dict(conf_dict.get('ipsec_proto', 'esp'), _ipsec_proto_name_to_enum)
         encr = self._load_crypto_algs('encr', conf_dict.get('encr', ['aes256']), _encr_name_to_transform)
@@ -170,15 +221,15 @@ class Configuration(object):
 
         ip_proto = self._load_from_dict(conf_dict.get('ip_proto', 'any'), _ip_proto_name_to_enum)
         my_subnet = self._load_ip_network(conf_dict.get('my_subnet', ikeconf.my_addr))
-        my_port = int(conf_dict.get('my_port', 0))
+        my_port = self._load_int(conf_dict, 'my_port', 0)
         peer_subnet = self._load_ip_network(conf_dict.get('peer_subnet', ikeconf.peer_addr))
-        peer_port = int(conf_dict.get('peer_port', 0))
+        peer_port = self._load_int(conf_dict, 'peer_port', 0)
 
         return IpsecConfiguration(
-            index=int(conf_dict.get('index', random.randint(0, 2 ** 20))),
+            index=self._load_int(conf_dict, 'index', random.randint(0, 2 ** 20)),
             my_ts=TrafficSelector.from_network(my_subnet, my_port, ip_proto),
             peer_ts=TrafficSelector.from_network(peer_subnet, peer_port, ip_proto),
-            lifetime=int(conf_dict.get('lifetime', 5 * 60)),
+            lifetime=self._load_int(conf_dict, 'lifetime', 5 * 60),
             mode=self._load_from_dict(conf_dict.get('mode', 'tunnel'), _mode_name_to_enum),
             proposal=Proposal(1, ipsec_proto, b'', encr + integ + dh + no_esn),
         )
@@ -193,7 +244,7 @@ class Configuration(object):
     def _load_from_dict(key, cnf_dict):
         try:
             return cnf_dict[key]
-        except KeyError:
+        except (KeyError, TypeError):
             raise ConfigurationError(f'I could not understand {key} configuration value')
 
     def _load_crypto_algs(self, key, names, name_to_transform):
